@@ -132,7 +132,10 @@ func runC05(c *Ctx) {
 			e, ok := v.(*ssa.Extract)
 			return ok && e.Tuple == decSig.Value()
 		})
-		entryOK := derivesFrom(callArgs(decSig)[0], func(v ssa.Value) bool { f, _ := loadedField(v); return f != nil && f.Name() == "Sign" && ownerNameOfField(w, f) == "SignInfo" })
+		entryOK := derivesFrom(callArgs(decSig)[0], func(v ssa.Value) bool {
+			f, _ := loadedField(v)
+			return f != nil && f.Name() == "Sign" && ownerNameOfField(w, f) == "SignInfo"
+		})
 		hashOK := derivesFrom(callArgs(verify)[0], func(v ssa.Value) bool { f, _ := loadedField(v); return f == signInfoHash })
 		c.Check(name+"#entry-hash-and-signature", verify.Pos(), sigOK && entryOK && hashOK, ifelse(sigOK && entryOK && hashOK, "each entry's own signature is verified over a payload built from its own hash", "the signature verified is not the entry's own over the entry's own block hash"))
 		// whole list: the entries iterated are elements of the Signs field without re-slicing
@@ -199,7 +202,10 @@ func runC05(c *Ctx) {
 			for _, pr := range [][2]ssa.Value{{a.X, a.Y}, {a.Y, a.X}} {
 				f, _ := loadedField(stripConv(pr[0]))
 				if f != nil && f.Name() == "Round" {
-					if p, ok := stripConv(pr[1]).(*ssa.Parameter); ok && p.Name() == "parentHeight" || derivesFrom(pr[1], func(v ssa.Value) bool { p, ok := v.(*ssa.Parameter); return ok && strings.Contains(strings.ToLower(p.Name()), "parent") }) {
+					if p, ok := stripConv(pr[1]).(*ssa.Parameter); ok && p.Name() == "parentHeight" || derivesFrom(pr[1], func(v ssa.Value) bool {
+						p, ok := v.(*ssa.Parameter)
+						return ok && strings.Contains(strings.ToLower(p.Name()), "parent")
+					}) {
 						roundOK = true
 					}
 				}
